@@ -60,7 +60,7 @@ func TestPropC05Gen(t *testing.T) {
 		var units []wdrv.Unit
 		var cases []Case
 		for i := 0; i < batch; i++ {
-			ev.Eval()
+			ev.Class("programs-drawn")
 			pr := wgen.Gen(t, fmt.Sprintf("q%d", i), opt)
 			p, err := winterp.Load(pr.Pkg, []byte(pr.Src))
 			if err != nil {
@@ -128,6 +128,7 @@ func checkC05Units(t interface{ Fatalf(string, ...any) }, tl *wdrv.Tool, units [
 		s0, ri0, o0, g0, _ := finalState(out[k][0])
 		for hi := 1; hi < len(out[k]); hi++ {
 			ev.Class("partitions-compared")
+			ev.Eval() // one evaluation = one partition of the streams compared with the one-shot run
 			s, ri, o, g, nsusp := finalState(out[k][hi])
 			diff := ""
 			switch {
